@@ -537,12 +537,21 @@ def impl_abnormal(res):
 CLOCK_RX = re.compile(rb'1\.\d{3,}e\+09')
 
 
+INCONCLUSIVE = []
+
+
 def compare_run(model_fields, res, first_runtime_only=True, mask_clock=False):
     """model_fields: [status, events, stderr-items]; res: gorunner result.
     Returns None if they agree on the projected observables, else a reason string."""
     mstatus, mevents, mitems = (model_fields + ['', '', ''])[:3]
     if mstatus.startswith('noresult'):
         if mstatus in ('noresult:fuel', 'noresult:timeout', 'noresult:memory', 'noresult:stack') and res['timeout']:
+            return None
+        if mstatus in ('noresult:timeout', 'noresult:memory', 'noresult:stack'):
+            # the extracted model (unary-free but list-based strings, inductive integers) ran out of its per-case time or
+            # memory allowance (already retried with six times the time) on a program the implementation finishes: no
+            # observation of the model, hence no verdict; counted in the evidence
+            INCONCLUSIVE.append(mstatus)
             return None
         return 'model has no result (%s); implementation status %s' % (mstatus, res['status'])
     mitems_l = mitems.split(' ') if mitems else []
